@@ -21,7 +21,7 @@ class _Widths(dict):
         import unicodedata
 
         o = ord(c)
-        zero = unicodedata.combining(c) or 0x200B <= o <= 0x200D or 0xE0100 <= o <= 0xE01EF or 0x1160 <= o <= 0x11FF
+        zero = unicodedata.combining(c) or 0x200B <= o <= 0x200D or 0xFE00 <= o <= 0xFE0F or 0xE0100 <= o <= 0xE01EF or 0x1160 <= o <= 0x11FF
         w = 0 if zero else (2 if unicodedata.east_asian_width(c) in ("W", "F") else 1)
         self[c] = w
         return w
@@ -229,7 +229,7 @@ def shard(args):
                     acc.failure("C11:operand_changed", {"f": C.show_spec(spec)}, "")
     # longer strings and wider limits: 8..40 characters from repeating patterns, 1..8 runs, columns up to 20
     jj = 0
-    for pat in ("a", "Ｅ", "a漢", "Ｅ\u0300a", "a\u0300\u0300Ｅ", "ＥＥa", "aaＥ"):
+    for pat in ("a", "Ｅ", "a漢", "Ｅ\u0300a", "a\u0300\u0300Ｅ", "ＥＥa", "aaＥ", "Ｅ\u200d", "\u203c\ufe0fa", "\u2764\ufe0fＥ", "\u2122\ufe0f\u2600\ufe0f", "a\ufe0eＥ\u1160"):
         for total in (8, 16, 17, 33, 40):
             text = (pat * total)[:total]
             for nruns in (1, 2, 5, 8):
